@@ -623,7 +623,10 @@ func ProofPositions(origTargets []uint64, numLeaves uint64, totalRows uint8) ([]
 			nextTargets = append(nextTargets, targets[i])
 		}
 
+		// A parent computed on this row may already be a target itself:
+		// keep each position once.
 		slices.Sort(targets)
+		targets = slices.Compact(targets)
 	}
 
 	return proofPositions, nextTargets
